@@ -179,3 +179,61 @@ func hist(a map[string]string) {
 		os.Exit(1)
 	}
 }
+
+// histCorpus: hand-written histories.  Input lines: cfg<TAB>universe seed<TAB>group<TAB>operation
+// name<TAB>variables<TAB>operation text; consecutive lines with the same (cfg, seed) form one
+// history, run under all sixteen option sets.
+func histCorpus(a map[string]string) {
+	out := common.NewOut(a["out"])
+	defer out.Close()
+	exec, err := fedlab.NewExecServer("")
+	if err != nil {
+		fmt.Fprintln(os.Stderr, "exec:", err)
+		os.Exit(1)
+	}
+	defer exec.Close()
+	var cur *c09lab.History
+	var curKey string
+	var curSeed uint64
+	flush := func() {
+		if cur == nil || len(cur.Reqs) == 0 {
+			return
+		}
+		sets := c09lab.AllOptionSets()
+		ho, err := c09lab.Observe(cur, exec, sets)
+		if err != nil {
+			fmt.Fprintln(os.Stderr, "observe:", err)
+			os.Exit(1)
+		}
+		if a["diag"] == "1" {
+			diag(cur, ho, sets)
+		}
+		out.Line(ho.Sexp(cur, curSeed, sets))
+		cur = nil
+	}
+	for _, line := range readLines(a["in"]) {
+		fs := strings.SplitN(line, "\t", 6)
+		if len(fs) != 6 {
+			continue
+		}
+		fx := c09lab.FixedByName(fs[0])
+		if fx == nil {
+			continue
+		}
+		var useed uint64
+		var group int
+		fmt.Sscan(fs[1], &useed)
+		fmt.Sscan(fs[2], &group)
+		key := fs[0] + "|" + fs[1]
+		if key != curKey {
+			flush()
+			curKey, curSeed = key, useed
+			cur = &c09lab.History{CfgName: fx.Name, Config: fx.Config, U: fx.Universe(common.NewRand(useed))}
+		}
+		cur.Reqs = append(cur.Reqs, c09lab.HReq{Group: group, Sp: &c09lab.Spelled{Style: "corpus", Text: fs[5], Variables: fs[4], OpName: fs[3]}})
+		if group >= cur.NGroups {
+			cur.NGroups = group + 1
+		}
+	}
+	flush()
+}
